@@ -171,6 +171,14 @@ def one_case(ctx, seed, idx):
                 decoy = I.DBusInterface(dname, I.Method('Alpha', 'i', 's'), I.Signal('Beta', 'u'),
                                         I.Property('Gamma', 'i'), I.Method('OnlyInDecoy'))
             decoy_before = describe(decoy)
+            decoy_name = decoy.name
+            if r.random() < 0.4:
+                # "declare once in a set-up function, refer to it by name later": nothing but the registry of known
+                # interfaces refers to the local definition any more
+                decoy = None
+                import gc
+                gc.collect()
+                ctx.count('local_definitions_referenced_by_registry_only')
         if r.random() < 0.4:
             # an earlier reply that was cut short or garbled (a peer died mid-answer) must not influence this parse
             for _ in range(r.choice([1, 1, 2])):
@@ -200,7 +208,23 @@ def one_case(ctx, seed, idx):
                 ctx.report('interface-count', 'interface %s appears %d times after the round trip' % (desc['name'], len(got)),
                            w, case)
                 continue
-            if decoy is not None and desc['name'] == decoy.name:
+            if decoy_before is not None and decoy is None and desc['name'] == decoy_name:
+                if not replace:
+                    ctx.count('known_reused')
+                    if describe(got[0]) != decoy_before:
+                        w['local_before'] = decoy_before
+                        w['got'] = describe(got[0])
+                        ctx.report('known-not-reused', 'a locally known interface (kept alive by the registry only) was not '
+                                   'reused although replacement was not requested', w, case)
+                    continue
+                ctx.count('known_replaced')
+                if 'OnlyInDecoy' in got[0].methods:
+                    ctx.report('known-not-replaced', 'replaceKnownInterfaces=True but the locally known definition was kept',
+                               w, case)
+                    continue
+                if I.DBusInterface.knownInterfaces.get(desc['name']) is not got[0]:
+                    ctx.report('registry-not-updated', 'replaced interface is not the registered one', w, case)
+            elif decoy is not None and desc['name'] == decoy.name:
                 if not replace:
                     ctx.count('known_reused')
                     if got[0] is not decoy:
